@@ -68,8 +68,8 @@ THOROUGH = [
 ]
 
 
-def setup(U, links):
-  I = new_interp(U.repo)
+def setup(U, links, reset=True):
+  I = new_interp(U.repo, reset=reset)
   M = refkin.Model(links, anchors_zero=False)
   M.add_inertia()
   sysd = M.brax_system()
@@ -136,10 +136,18 @@ def ref_step(M, sysd, Mx, f_smooth):
   return q2, qd2
 
 
-def one(U, links, seed):
+def one(U, links, seed, before=None):
+  """before: another model evaluated FIRST in the same session (module-level state of the analysed program -- caches keyed
+  by less than they depend on -- survives from one model of a process to the next)."""
   avn.field_mode(seed)
   try:
-    I, M, sysd = setup(U, links)
+    if before is not None:
+      Ib, Mb, sysb = setup(U, before)
+      stb = state_of(Ib, sysb, Mb)
+      Ib.apply(fn('brax.generalized.mass', 'matrix'), [sysb, stb], {})
+      Ib.apply(fn('brax.generalized.dynamics', 'inverse'), [sysb, stb], {})
+      Ib.apply(fn('brax.generalized.dynamics', 'forward'), [sysb, stb, symarr('taub', (Mb.nv,))], {})
+    I, M, sysd = setup(U, links, reset=before is None)
     st = state_of(I, sysd, M)
     bad = []
     mx = I.apply(fn('brax.generalized.mass', 'matrix'), [sysd, st], {})
@@ -204,10 +212,19 @@ def run(U, rep, tier):
   seeds = [s0 * 1000 + t for t in range(2 if tier == 'quick' else 5)]
   tops = TOPOLOGIES + STACKS + (THOROUGH if tier == 'thorough' else [])
   calls = 0
-  for name, links in tops:
+  # "for every model" also covers the second model of a process: a star evaluated after a serial chain with the same
+  # link-type string (and vice versa)
+  chain3 = [dict(parent=-1, joints=H), dict(parent=0, joints=H), dict(parent=1, joints=H)]
+  star3 = [dict(parent=-1, joints=H), dict(parent=0, joints=H), dict(parent=0, joints=H)]
+  seq = [('a star of three hinges evaluated AFTER a serial chain with the same link types', star3, chain3),
+         ('a serial chain of three hinges evaluated AFTER a star with the same link types', chain3, star3)]
+  for name, links, before in [t_ + (None,) for t_ in tops] + seq:
     found = {}
     for sd in seeds:
-      b, c = one(U, links, sd)
+      try:
+        b, c = one(U, links, sd, before)
+      except IndexError as e:
+        b, c = ['bias force (Coriolis/centrifugal/gravity)'], 0      # an out-of-bounds index of the analysed program
       calls += c
       for x in b:
         found.setdefault(x, sd)
